@@ -31,7 +31,7 @@ from pyvc.source import Repo  # noqa: E402
 CONTRACT_MODULES = ["contracts.validation", "contracts.declaration", "contracts.formatting", "contracts.generation", "contracts.substitution", "contracts.combinators", "contracts.equality", "contracts.custom", "contracts.representation", "contracts.regexgen"]
 NATIVE_PY = os.environ.get("PYVC_NATIVE_PY", "/venv/bin/python")
 REPLAY_DIR = os.path.join(HERE, "replays")
-EVID_DIR = os.path.join(HERE, "evidence")
+EVID_DIR = os.environ.get("PYVC_EVIDENCE_DIR") or os.path.join(HERE, "evidence")   # (seed runs write elsewhere)
 KNOWN = os.path.join(HERE, "known_findings.jsonl")
 BASELINE = os.path.join(HERE, "baseline_obligations.json")
 CANARIES = os.path.join(HERE, "canaries.json")
@@ -310,6 +310,23 @@ def try_replays(ex, ct, con: Contract, fr, ob, v, prop: str) -> List[Dict[str, A
     return res
 
 
+COMPLEMENT_PROPS = ("C04", "C05", "C12", "C06")
+
+
+def run_complement(prop: str, tier: str, seed: int) -> Dict[str, Any]:
+    try:
+        env = dict(os.environ)
+        env["PYTHONPATH"] = HERE
+        p = subprocess.run([NATIVE_PY, os.path.join(HERE, "replay", "complement.py"), prop, tier, str(seed)],
+                           capture_output=True, text=True, timeout=1200, env=env)
+        line = (p.stdout or "").strip().splitlines()
+        if not line:
+            return {"error": "no output: " + (p.stderr or "")[-400:], "failures": []}
+        return json.loads(line[-1])
+    except Exception as e:
+        return {"error": repr(e), "failures": []}
+
+
 def combined_sha(repo, res: Dict[str, Any], key: str = "relpath") -> str:
     """hash of the verified function's source and of every repository function the executor inlined into it"""
     import hashlib
@@ -332,7 +349,8 @@ def run_check(prop: str, tier: str) -> int:
     if not cons and not any(prop in l.props for l in REG.lemmas.values()):
         print(f"ERROR no contracts registered for {prop}")
         return 3
-    known = [k for k in load_known() if k["property"] == prop or prop in k.get("also", [])]
+    known = [k for k in load_known() if (k["property"] == prop or prop in k.get("also", []))
+             and k.get("engine", "pyvc") == "pyvc"]
     # known findings: replay each witness; a region is active only while its witness still fails
     active_regions: List[str] = []
     known_lines: List[str] = []
@@ -444,6 +462,32 @@ def run_check(prop: str, tier: str) -> int:
                     for r in reps:
                         print("  DEBUG-REPLAY", v["name"], json.dumps(r.get("native")), json.dumps(r.get("inputs"))[:600])
 
+    # bounded complement: the property's native oracle over an enumerated zoo, for the functions the property depends
+    # on that are not under contract yet -- a labelled bounded stand-in, never counted among the obligations
+    complement = None
+    if prop in COMPLEMENT_PROPS and not os.environ.get("PYVC_NO_COMPLEMENT"):
+        complement = run_complement(prop, tier, seed)
+        comp_known = [k for k in load_known() if k.get("engine") == "complement"
+                      and (k["property"] == prop or prop in k.get("also", []))]
+        comp_active = []
+        for k in comp_known:
+            r = native_replay({"oracle": k.get("oracle", prop), "inputs": k["witness"], "meta": k.get("meta", {})})
+            if r.get("reproduced"):
+                comp_active.append(k["signature"])
+                known_lines.append(f"KNOWN-FINDING: property={prop} {k['what']}")
+        complement["known_signatures_active"] = comp_active
+        if complement.get("error"):
+            errors.append("bounded complement failed to run: " + str(complement["error"])[:300])
+        for f in complement.get("failures", []):
+            if f["signature"] in comp_active:
+                continue
+            spec = {"property": prop, "oracle": prop, "obligation": "bounded-complement: " + f["label"],
+                    "function": "functions not under contract: " + ", ".join(complement.get("functions", [])),
+                    "inputs": f["inputs"], "meta": {}, "clause": "native oracle of the property (bounded complement)",
+                    "native": {"reproduced": True, "detail": f["detail"]}, "found_by": "bounded complement zoo"}
+            path = write_replay(prop, spec)
+            violations.append(("bounded-complement[" + f["signature"] + "]", path, True))
+
     wall = time.time() - t0
     status = 0
     for line in known_lines:
@@ -482,6 +526,13 @@ def run_check(prop: str, tier: str) -> int:
             "regions_active": active_regions,
             "refutation_searches": searches,
             "canaries": canary_report,
+            "bounded_complement": (None if complement is None else {
+                "label": "BOUNDED stand-in for the functions not under contract; not counted in obligations/discharged",
+                "functions_not_under_contract": complement.get("functions"), "evaluations": complement.get("evaluations"),
+                "distinct_cases": complement.get("distinct"), "outside_domain": complement.get("unreachable"),
+                "failing_cases": len(complement.get("failures", [])), "rule": complement.get("rule"),
+                "samples": complement.get("samples"), "known_signatures_active": complement.get("known_signatures_active"),
+                "harness_errors": complement.get("harness_errors", [])[:5]}),
             "explanation": "contract-based deductive verification of the real source re-read from /repo "
                            "(pyvc: AST symbolic executor -> VCs -> z3/cvc5); see DESIGN.md",
         },
